@@ -57,6 +57,12 @@ def load_fonts():
         _FONTS["ttx:" + name] = (data, -1)
     for pname, spec in sorted(tinyfont.pool().items()):
         _FONTS["tiny:" + pname] = (tinyfont.build_bytes(spec), -1)
+    # embedded bitmaps: the vendored corpus has no EBDT font (only CBDT PNG data), so the row / bitwise
+    # dump formats get generated fonts in every image format, with rows ending inside a byte
+    from oracles import bitmapfont
+
+    for bname, bdata in sorted(bitmapfont.family().items()):
+        _FONTS["tiny:" + bname] = (bdata, -1)
     # hostile glyph names and name strings
     spec = {"kind": "ttf", "shapes": "mixed", "glyphs": HOSTILE_GLYPHS, "cmap": {0x41 + i: g for i, g in enumerate(HOSTILE_GLYPHS)},
             "fea": "feature liga { sub \\a.b-c \\Aacute_ by \\_1; } liga;"}
